@@ -790,6 +790,20 @@ class Interp:
         self.ncalls += 1
         f = e.func
         fn = p.frame.func
+        # list.append on a local list literal: keep the list's contents in the term
+        if isinstance(f, ast.Attribute) and f.attr == "append" and isinstance(f.value, ast.Name) \
+                and len(e.args) == 1 and not e.keywords and f.value.id in p.frame.env \
+                and p.frame.env[f.value.id][0] == "list":
+            out = []
+            for q, v in self.ev(e.args[0], p):
+                if q.status == "normal":
+                    cur = q.frame.env[f.value.id]
+                    q.frame.env[f.value.id] = ("list", cur[1] + (v,))
+                    self.nresolved += 1
+                    self._emit(q, Event("call", q.frame.func, e, name=".append", recv=cur, pos=(v,),
+                                        result=NONE))
+                out.append((q, NONE))
+            return out
         # evaluate arguments first (left-to-right after the callee expression; the
         # callee expressions in this code base have no side effects)
         argexprs = [a for a in e.args] + [k.value for k in e.keywords]
@@ -1327,7 +1341,8 @@ def field_defs(prog: Program, cls: ClassInfo, inline=None) -> dict:
     inlined (each method contributes its own stores exactly once).
     """
     out: dict = {}
-    for m in prog.functions_in(cls):
+    methods = [m for c in prog.mro(cls) for m in c.methods.values()]  # shadowed ones too (super() calls)
+    for m in methods:
         if m.is_static or m.is_classmethod:
             continue
         it = Interp(prog, cls, inline=inline or (lambda c, r, d: False))
